@@ -19,6 +19,8 @@ CHECKS = {
          TECH + "; linearizability checking (porcupine) of recorded histories against a reference Redis"),
  "C11": ("exploration", "Seeded exploration with two adversaries and a canary: adversarial downstream connections send mutated request streams (truncated frames, huge/negative/overflowing lengths, wrong terminators, nesting up to 10^6, megabyte inline lines, binary garbage, arbitrary sender-side splits), and adversarial backends replace the n-th reply to READONLY / CLUSTER NODES / ASKING / SCAN / ordinary commands by malformed MOVED/ASK/CLUSTERDOWN errors, malformed CLUSTER NODES texts, malformed SCAN replies and deeply nested frames; oracle: no task of the proxy panics, the worker process does not die (a Go fatal error is attributed to the journaled scenario and confirmed by replay), allocation around one adversarial message stays below 400 MiB, and a canary connection is served correctly once the adversaries have turned honest.", "4.C11",
          TECH + "; adversarial peers (grammar-aware mutation) with a canary oracle"),
+ "C13": ("exploration", "Seeded exploration of write/read-back programs (SET incl. options, SETNX, GETSET, SETEX, PSETEX, MSET, HSET/HMSET with several pairs, HSETNX; GET, MGET, HGET, HMGET, HGETALL, HVALS) with values of every length around the threshold and six entropy classes, thresholds 1-4096, 1-4 connections sharing the pooled buffers and compressors, enable/disable toggles through OnSvcConfigUpdate at random steps, and re-sharding/migration so that writes are redirected and resent; oracle: every reply equals the reply of a per-connection reference Redis, every value stored on a node is the original or the documented header plus a snappy stream that expands to the original and is shorter, sub-threshold values are verbatim, disabled commands get an error and never reach a node.", "4.C13",
+         TECH + "; differential testing against a reference model plus storage-form oracle (reference snappy decoder)"),
 }
 NA = {
 }
